@@ -899,4 +899,59 @@ theorem sort_suffix_split (ts : Terms) (a b : Int) (X : RS) :
     rw [List.drop_append_of_le_length (by simp only [List.length_take]; simp only [tlen] at h2; omega)]
   rw [e, sortRows_append]
 
+theorem sortc_group (cs : List Callable) (ts : Terms) (a b : Int) (d : Bool) (Y : RS) :
+    (0 ≤ a ∧ a ≤ b ∧ b ≤ tlen ts ∧ den_terms cs ts a b ∧ same_dir ts a b d) →
+    sortc cs d Y = sort (tslice ts a b) Y := by
+  rintro ⟨_, _, _, hden, hdir⟩
+  simp only [sortc, sort]
+  congr 1
+  exact sortcRows_eq_sortRows d cs (tslice ts a b) (forall₂_and_right hden hdir) Y.rows
+
+/-! ## integer arithmetic: descending ranges -/
+
+/-- a descending range `range(a, b, s)` (s < 0, non-empty) has the same elements as the ascending range
+`range(m, a + 1, -s)` with `m = a + ((a - b - 1) / (-s)) * s` -/
+theorem desc_range (a b s x : Int) :
+    (s < 0 ∧ b < a) →
+    ((b < x ∧ x ≤ a ∧ (a - x) % (-s) = 0) ↔
+      (a + ((a - b - 1) / (-s)) * s ≤ x ∧ x ≤ a ∧ (x - (a + ((a - b - 1) / (-s)) * s)) % (-s) = 0)) := by
+  rintro ⟨hs, _⟩
+  set k := -s with hkdef
+  set q := (a - b - 1) / k with hq
+  have hk : 0 < k := by omega
+  have hs' : s = -k := by omega
+  have hdiv := Int.mul_ediv_add_emod (a - b - 1) k
+  have hr0 := Int.emod_nonneg (a - b - 1) (ne_of_gt hk)
+  have hr1 := Int.emod_lt_of_pos (a - b - 1) hk
+  rw [← hq] at hdiv
+  have hm : a + q * s = a - k * q := by rw [hs', Int.mul_neg, Int.mul_comm q k]; omega
+  rw [hm]
+  constructor
+  · rintro ⟨h1, h2, h3⟩
+    obtain ⟨j, hj⟩ := Int.dvd_of_emod_eq_zero h3
+    have hj0 : 0 ≤ j := by
+      by_contra hneg
+      push_neg at hneg
+      have : k * j < 0 := Int.mul_neg_of_pos_of_neg hk hneg
+      omega
+    have hjq : j ≤ q := by
+      by_contra hlt
+      push_neg at hlt
+      have h4 : k * (q + 1) ≤ k * j := Int.mul_le_mul_of_nonneg_left (by omega) (le_of_lt hk)
+      have h5 : k * (q + 1) = k * q + k := by rw [Int.mul_add, Int.mul_one]
+      omega
+    have hkq : k * j ≤ k * q := Int.mul_le_mul_of_nonneg_left hjq (le_of_lt hk)
+    refine ⟨by omega, h2, ?_⟩
+    have e : x - (a - k * q) = k * (q - j) := by
+      have : k * (q - j) = k * q - k * j := Int.mul_sub k q j
+      omega
+    rw [e]; exact Int.mul_emod_right k (q - j)
+  · rintro ⟨h1, h2, h3⟩
+    obtain ⟨i, hi⟩ := Int.dvd_of_emod_eq_zero h3
+    refine ⟨by omega, h2, ?_⟩
+    have e : a - x = k * (q - i) := by
+      have : k * (q - i) = k * q - k * i := Int.mul_sub k q i
+      omega
+    rw [e]; exact Int.mul_emod_right k (q - i)
+
 end RelAlg.Laws
